@@ -29,7 +29,7 @@ CHECKS = {
         note=TRUST + "Heap bound 1024 x len + 8 MiB by a counting allocator; step budget 4M + 16 x len I/O calls; wall-clock watchdog for loops without I/O.",
         tech="deterministic simulation: seeded + enumerated storage faults (crash points, bit rot, lying fields) with panic/abort/step/heap monitors"),
     "C07": dict(level="exploration", ref="DESIGN.md §4 C07",
-        text="Archives with hostile and benign names are extracted by both extractors from a simulated source (short reads, optional reader fault) into a fresh 16-level-deep sandbox on the real file system; the sandbox outside the target is snapshotted before/after (confinement), unsafe names must yield Err, and for safe consistent names the tree, bytes and permission bits must equal the reference tree. Names come with slashes and with backslashes, directory entries may follow their children or exist already, and the target is named absolutely or by relative spellings ('../target', './target', 'x/../target', '.').",
+        text="Archives with hostile and benign names are extracted by both extractors from a simulated source (short reads, optional reader fault) into a fresh 16-level-deep sandbox on the real file system; the sandbox outside the target is snapshotted before/after (confinement), unsafe names must yield Err, and for safe consistent names the tree, bytes and permission bits must equal the reference tree. Names come with slashes and with backslashes, directory entries may follow their children or exist already, older files (longer, shorter, equally long) may already sit at the paths of file entries, and the target is named absolutely or by relative spellings ('../target', './target', 'x/../target', '.').",
         note=TRUST + "The sink is the real kernel FS on purpose (confinement is about what the kernel does with the path); even a real escape cannot leave the sandbox.",
         tech="deterministic simulation of the archive source + sandboxed real-FS snapshot oracle over a seeded hostile-name grammar"),
     "C08": dict(level="exploration", ref="DESIGN.md §4 C08",
